@@ -124,6 +124,27 @@ class C20(Oracle):
             if r is not None:
                 w.violation('C20', 'write-through', st, r, culprit)
                 return
+        # -- an indexed write (or an in-place sort) stores INTO the buffer: afterwards the object still
+        #    shares it with every view that overlapped it before (asked of the real arrays here, but only
+        #    for pairs the MODEL holds to be aliases)
+        if st.kind == 'indexed' and st.outcome == 'ok' and st.dest is not None and w.slots[st.dest].alive \
+                and not st.nested and not st.extra.get('selfwrites'):
+            pa = st.extra.get('pre_alias', {})
+            if st.dest in pa:
+                tok, dpos = pa[st.dest]
+                dset = set(dpos.ravel().tolist())
+                dv = w.slots[st.dest].obj.val
+                for m, (t, pos) in pa.items():
+                    if m == st.dest or t != tok or not w.slots[m].alive or w.slots[m].token != w.slots[st.dest].token:
+                        continue
+                    mv = w.slots[m].obj.val
+                    if isinstance(dv, np.ndarray) and isinstance(mv, np.ndarray) and dv.dtype.kind != 'O' and \
+                            mv.dtype.kind != 'O' and dv.size and mv.size and (dset & set(pos.ravel().tolist())) and \
+                            not np.shares_memory(dv, mv):
+                        w.violation('C20', 'write-through', st,
+                                    {'what': 'an in-place write detached the object from a view that overlaps it',
+                                     'slot': st.dest, 'view': m}, culprit)
+                        return
         # -- a scalar stored through an index lands on EVERY element the index selects (NumPy's
         #    broadcast): whatever code it quantizes to, the whole written region holds that one code
         #    (no value is predicted: the region is only compared with itself)
